@@ -24,7 +24,7 @@ ASSUMPTIONS = ["in-memory lists are given with n_cat=len(list) (required by an e
                "without filter_spatial / magnitude filter every event lies inside the region / above the first magnitude edge (otherwise gridding legitimately rejects)",
                "evaluation results of a history are compared with the same evaluation on a fresh forecast object (history independence); their absolute correctness is C10's subject"]
 SHARDS = {"quick": 8, "thorough": 16}
-OPS = ["iterate", "event_counts", "expected_rates", "spatial_counts", "magnitude_counts", "n_test", "s_test", "m_test", "pl_test"]
+OPS = ["iterate", "event_counts", "expected_rates", "spatial_counts", "magnitude_counts", "n_test", "s_test", "m_test", "pl_test", "refused"]
 CONFIGS = [(src, flt, sp) for src in ("list", "file_store", "file_nostore") for flt in (False, True) for sp in (False, True)]
 T_CUT = 1262304000000 + 5000  # events before this instant are removed by the time filter
 
@@ -177,6 +177,26 @@ def run_op(W, fc, op):
         return flat
     if op == "magnitude_counts":
         return numpy.array(fc.magnitude_counts(), dtype=float)
+    if op == "refused":
+        # requests the library refuses or answers by an early exit, none of which abandons a pass half-way: the spatial and
+        # pseudo-likelihood tests with an observed event outside the region (ValueError of the cell lookup, raised before the
+        # test's own pass), and every test with an empty observation ('not-valid' result / None).  Their outcome is not judged
+        # here; the operations that follow must be answered as if these had never been made.
+        from csep.core.catalogs import CSEPCatalog
+        region = W.S.region()
+        inside = W.S.event(0, 0, 0)
+        outside = ("outside",) + inside[1:2] + (float(W.S.L.ey[0]) - 3.75, float(W.S.L.ex[0]) - 7.25) + inside[4:]
+        done = 0
+        for f, cat in ((CE.spatial_test, CSEPCatalog(data=[inside, outside], region=region)), (CE.pseudolikelihood_test, CSEPCatalog(data=[outside, inside], region=region)),
+                       (CE.spatial_test, CSEPCatalog(data=[], region=region)), (CE.magnitude_test, CSEPCatalog(data=[], region=region)),
+                       (CE.pseudolikelihood_test, CSEPCatalog(data=[], region=region)), (CE.number_test, CSEPCatalog(data=[], region=region))):
+            try:
+                f(fc, cat, verbose=False)
+            except PassDidNotTerminate:
+                raise
+            except Exception:  # noqa: BLE001
+                done += 1
+        return done
     f = {"n_test": CE.number_test, "s_test": CE.spatial_test, "m_test": CE.magnitude_test, "pl_test": CE.pseudolikelihood_test}[op]
     return result_key(f(fc, W.observation(), verbose=W.verbose))
 
@@ -249,6 +269,8 @@ class Session:
         elif op == "magnitude_counts":
             if not numpy.allclose(got, W.mean.sum(axis=0), rtol=1e-12, atol=0):
                 bad = ("magnitude_counts_not_marginal_of_mean", {"history": hist})
+        elif op == "refused":
+            ctx.count("refused_requests_in_histories")
         else:
             if op not in self.fresh:
                 with mock.patch.object(CatalogForecast, "__next__", capped_next(200 * (W.n + 1))):
